@@ -1,9 +1,11 @@
 (* Interleaved semantics of cache users (C11): definitions only.
    Clients (goroutines or processes, each with its own Cache value) run lists of API calls;
-   a schedule picks which client performs its next file operation.  A write is atomic; an
-   observing operation (Stat, Read, read-all) may be given a torn view of the file it looks at:
-   the first j bytes of the current content followed by the rest of the content the file had
-   before the most recent write to it.  No faults. *)
+   a schedule picks which client performs its next file operation.  A write is atomic; a
+   reading operation (Read, read-all) may be given a torn view of the file it looks at: the
+   first j bytes of the current content followed by the rest of the content the file had
+   before the most recent write to it.  Stat is atomic: the size of a file changes at one
+   instant of a write, so a Stat concurrent with a write is a Stat before or after it.
+   No faults. *)
 From Coq Require Import List Bool Arith NArith ZArith.
 From Coq.Strings Require Import Byte.
 From GI Require Import Lib.Bytes Gen.CacheConsts Cache.CacheEntry Cache.Cache.
@@ -41,7 +43,7 @@ Definition updl (l : path -> option bytes) (p : path) (v : option bytes) : path 
 
 Definition cstep (o : op) (torn : option nat) (s : sys) : sys * res :=
   match o with
-  | OStat p => (s, match view s p torn with Some c => RSize (length c) | None => RErr end)
+  | OStat p => (s, match sfiles s p with Some c => RSize (length c) | None => RErr end)
   | ORead p off n => (s, match view s p torn with Some c => RBytes (firstn n (skipn off c)) | None => RErr end)
   | OReadAll p => (s, match view s p torn with Some c => RBytes c | None => RErr end)
   | OWrite p off b =>
